@@ -17,13 +17,13 @@ import (
 // with ENOSPC), torn (write silently stops after After bytes and reports success
 // is NOT modelled: os.WriteFile reports short writes).
 type FSFault struct {
-	Op     string `json:"op"`
-	Match  string `json:"match,omitempty"` // substring of the absolute path ("" = any)
-	Nth    int    `json:"nth"`
-	Kind   string `json:"kind"`
-	After  int    `json:"after,omitempty"`
-	seen   int
-	fired  bool
+	Op    string `json:"op"`
+	Match string `json:"match,omitempty"` // substring of the absolute path ("" = any)
+	Nth   int    `json:"nth"`
+	Kind  string `json:"kind"`
+	After int    `json:"after,omitempty"`
+	seen  int
+	fired bool
 }
 
 // FSAccess is one entry of the file-system log.
@@ -46,12 +46,12 @@ type fsNode struct {
 }
 
 type simFS struct {
-	w     *World
-	nodes map[string]*fsNode
-	cwd   string
-	log   []FSAccess
+	w      *World
+	nodes  map[string]*fsNode
+	cwd    string
+	log    []FSAccess
 	faults []FSFault
-	room  int64 // remaining bytes, -1 unlimited
+	room   int64 // remaining bytes, -1 unlimited
 }
 
 var errnoByName = map[string]syscall.Errno{
